@@ -21,8 +21,8 @@ COQ_MODELS = ['MCompare']
 _HEADER0 = ('From KV Require Import Eqb AL Str.\nFrom KV.Model Require Import MCompare.\n'
             'From Coq Require Import List String ZArith QArith.\nImport ListNotations.\n')
 COQ_HEADER = _HEADER0            # grows: named base datasets shared by the cases of a run (see encode)
-CASE_TYPE = 'MCompare.case'
-CHECK_FN = 'MCompare.check_case'
+CASE_TYPE = 'list MCompare.case'
+CHECK_FN = 'MCompare.check_history'
 SHARD_SIZE = 120
 CASE_TIMEOUT = 60
 RULE = ('a case = two datasets (all 18 parts populated, reference-closed, built through the real kapture classes) that are '
@@ -30,7 +30,11 @@ RULE = ('a case = two datasets (all 18 parts populated, reference-closed, built 
         'order) or differ by ONE mutation: a part set to None or emptied, one entry added / removed / altered in one part '
         '(altered = every field of every leaf kind in turn; for poses, camera parameters and 3-D points: beyond tolerance, within '
         'tolerance, and inside the band where np.isclose is asymmetric), applied to the first or to the second argument; '
-        'equal_kapture is called in both argument orders. Non-trivial = the two sides are not the same object graph built the same '
+        'equal_kapture is called in both argument orders. HISTORIES: on the same two live objects, cache-filling queries and a first '
+        'comparison, then one mutation through one of every mutation path the containers offer (typed setters, inherited dict / set / '
+        'list methods: update, |=, setdefault-chains, pop, popitem, inner edits, in-place attribute / array writes), a comparison, the '
+        'mirrored change on the other side, a last comparison; every comparison is encoded and judged against the content the objects '
+        'hold at that moment. Non-trivial = the two sides are not the same object graph built the same '
         'way (i.e. a mutation, a copy, a reload or a reorder took place); distinct = distinct (specs, transforms).')
 TRUSTED = ['numpy-quaternion rotation_intrinsic_distance and numpy.linalg.norm: modelled for UNIT quaternions by the chord '
            'min(|qa-qb|,|qa+qb|) <= thr/2 and the squared distance over Q (Section parameter pose_close with contract '
@@ -401,11 +405,16 @@ def _base_for(case, xa, xb):
     return best[1], best[2]
 
 
-def encode(case, obs):
-    xa, xb = obs['xa'], obs['xb']
+def _encode_one(case, o):
+    xa, xb = o['xa'], o['xb']
     base, name = _base_for(case, xa, xb)
     return '{| c_base := %s; c_da := %s; c_db := %s; o_ab := %s; o_ba := %s |}' % (
-        name, _cdiff(xa, base), _cdiff(xb, base), kv.cbool(obs['ab']), kv.cbool(obs['ba']))
+        name, _cdiff(xa, base), _cdiff(xb, base), kv.cbool(o['ab']), kv.cbool(o['ba']))
+
+
+def encode(case, obs):
+    """one Coq term of type list MCompare.case: one element per comparison of the history (a plain case = one)"""
+    return kv.clist(_encode_one(case, o) for o in obs.get('compares', [obs]))
 
 
 # ------------------------------------------------------------------------------------------ running the implementation
@@ -421,13 +430,8 @@ def _side(spec, via, seed, tmp):
     return k
 
 
-def run_impl(case, ctx):
-    import logging
+def _compare(a, b):
     from kapture.algo.compare import equal_kapture
-    logging.disable(logging.CRITICAL)
-    seed = case.get('seed', 0)
-    a = _side(case['a'], case.get('a_via', 'build'), seed, ctx['tmp'])
-    b = _side(case['b'], case.get('b_via', 'build'), seed + 1, ctx['tmp'])
     res = {}
     for name, (x, y) in (('ab', (a, b)), ('ba', (b, a))):
         try:
@@ -445,21 +449,355 @@ def run_impl(case, ctx):
     return res
 
 
-def oracle(case, obs):
-    """The property itself on the observed booleans: never raises, symmetric, true on copy / reload / reorder,
-    false when the two sides differ by a mutation beyond tolerance.  Independent of the Coq model."""
-    what = case.get('tag', '?')
-    if obs.get('exc'):
-        return f'equal_kapture raised on valid datasets [{what}]: ' + obs['exc'].split(':')[0]
-    if obs['ab'] != obs['ba']:
-        return f'not symmetric: equal(a,b)={obs["ab"]} but equal(b,a)={obs["ba"]} [{what}]'
-    exp = case.get('expect', 'any')
-    if exp == 'eq' and not obs['ab']:
+# ---- histories: mutations of the live objects through every method the containers offer
+TWO_LEVEL = ['rigs', 'trajectories'] + list(FILE_RECORDS) + list(SIGNAL_RECORDS) + list(ARRAY_RECORDS)
+ADD_HOWS = ['typed', 'typed_outer', 'update', 'update_typed', 'ior', 'setdefault', 'inner']
+DEL_HOWS = ['typed_del', 'typed_del_outer', 'pop', 'inner_del', 'inner_pop', 'popitem', 'inner_clear']
+SET_ADD_HOWS = ['add', 'update', 'ior', 'ixor']
+SET_DEL_HOWS = ['discard', 'remove', 'isub', 'iand', 'ixor']
+
+
+def _mkleaf(part, val):
+    import kapture
+    import kapture.core.Records as R
+    if part in ('rigs', 'trajectories'):
+        return _pose(val)
+    if part in FILE_RECORDS:
+        return val
+    if part in ARRAY_RECORDS:
+        return getattr(R, ARRAY_RECORDS[part][1])(**val)
+    _, dcls, scls = SIGNAL_RECORDS[part]
+    one = getattr(R, dcls)()
+    for addr, fields in val:
+        one[addr] = getattr(R, scls)(**fields)
+    return one
+
+
+def _apply_two_level(d, part, st):
+    import operator
+    how, k1, k2 = st['how'], st.get('k1'), st.get('k2')
+    leaf = _mkleaf(part, st['val']) if 'val' in st else None
+    if how == 'typed':
+        d[k1, k2] = leaf
+    elif how == 'typed_outer':
+        d[k1] = {k2: leaf}
+    elif how == 'update':
+        d.update({k1: {k2: leaf}})
+    elif how == 'update_typed':
+        more = type(d)()
+        more[k1, k2] = leaf
+        d.update(more)
+    elif how == 'ior':
+        operator.ior(d, {k1: {k2: leaf}})
+    elif how == 'setdefault':
+        d.setdefault(k1, {})[k2] = leaf
+    elif how == 'inner':
+        d[k1][k2] = leaf
+    elif how == 'typed_del':
+        del d[k1, k2]
+    elif how == 'typed_del_outer':
+        del d[k1]
+    elif how == 'pop':
+        d.pop(k1)
+    elif how == 'inner_del':
+        del d[k1][k2]
+    elif how == 'inner_pop':
+        d[k1].pop(k2)
+    elif how == 'popitem':
+        d.popitem()
+    elif how == 'inner_clear':
+        d[k1].clear()
+    elif how == 'pose_rescale':
+        d[k1, k2].rescale(st['scale'])
+    elif how == 'signal_inner':           # wifi / bluetooth: one signal of an existing record
+        import kapture.core.Records as R
+        d[k1][k2][st['k3']] = getattr(R, SIGNAL_RECORDS[part][2])(**st['val3'])
+    elif how == 'signal_pop':
+        d[k1][k2].pop(st['k3'])
+    else:
+        raise ValueError(how)
+
+
+def _apply_set(sset, part, st):
+    import operator
+    how = st['how']
+    items = [tuple(x) if isinstance(x, list) else x for x in st['items']]
+    if how == 'add':
+        for x in items:
+            sset.add(*x) if part == 'matches' else sset.add(x)
+    elif how == 'update':
+        sset.update(items)
+    elif how == 'ior':
+        operator.ior(sset, set(items))
+    elif how == 'ixor':
+        operator.ixor(sset, set(items))
+    elif how == 'discard':
+        for x in items:
+            sset.discard(x)
+    elif how == 'remove':
+        for x in items:
+            sset.remove(x)
+    elif how == 'isub':
+        operator.isub(sset, set(items))
+    elif how == 'iand':
+        operator.iand(sset, set(sset) - set(items))
+    elif how == 'clear':
+        sset.clear()
+    else:
+        raise ValueError(how)
+
+
+def _apply_mut(k, st):
+    import operator
+    import numpy as np
+    import kapture
+    part, how = st['part'], st['how']
+    if part in TWO_LEVEL:
+        return _apply_two_level(getattr(k, part), part, st)
+    if part in FEATURES or part == 'matches':
+        coll = getattr(k, part)
+        if how == 'coll_set':
+            sub = build({part: [[st['k1'], st['val']]]})
+            coll[st['k1']] = getattr(sub, part)[st['k1']]
+        elif how == 'coll_update':
+            sub = build({part: [[st['k1'], st['val']]]})
+            coll.update(getattr(sub, part))
+        elif how == 'coll_pop':
+            coll.pop(st['k1'])
+        elif how == 'coll_del':
+            del coll[st['k1']]
+        else:
+            _apply_set(coll[st['k1']], part, st)
+        return
+    if part == 'observations':
+        o = k.observations
+        pid, kt, img, idx = st.get('k1'), st.get('k2'), st.get('img'), st.get('idx')
+        if how == 'add':
+            o.add(pid, kt, img, idx)
+        elif how == 'update':
+            o.update({pid: {kt: [(img, idx)]}})
+        elif how == 'ior':
+            operator.ior(o, {pid: {kt: [(img, idx)]}})
+        elif how == 'setdefault':
+            o.setdefault(pid, {}).setdefault(kt, []).append((img, idx))
+        elif how == 'inner_append':
+            o[pid][kt].append((img, idx))
+        elif how == 'inner_tuple_append':
+            o[pid, kt].append((img, idx))
+        elif how == 'list_insert_front':
+            o[pid][kt].insert(0, (img, idx))
+        elif how == 'pop':
+            o.pop(pid)
+        elif how == 'del':
+            del o[pid]
+        elif how == 'inner_del':
+            del o[pid][kt]
+        elif how == 'list_pop':
+            o[pid][kt].pop()
+        elif how == 'list_clear':
+            o[pid][kt].clear()
+        elif how == 'list_reverse':
+            o[pid][kt].reverse()
+        else:
+            raise ValueError(how)
+        return
+    if part == 'sensors':
+        sn = k.sensors
+        if how in ('typed', 'update', 'ior', 'setdefault'):
+            d = st['val']
+            sensor = kapture.create_sensor(d['type'], list(d['params']), d['name'])
+            if how == 'typed':
+                sn[st['k1']] = sensor
+            elif how == 'update':
+                sn.update({st['k1']: sensor})
+            elif how == 'ior':
+                operator.ior(sn, {st['k1']: sensor})
+            else:
+                sn.setdefault(st['k1'], sensor)
+        elif how == 'pop':
+            sn.pop(st['k1'])
+        elif how == 'del':
+            del sn[st['k1']]
+        elif how == 'attr_name':
+            sn[st['k1']].name = st['name']
+        elif how == 'param_inplace':
+            sn[st['k1']].sensor_params[st['index']] = st['text']
+        else:
+            raise ValueError(how)
+        return
+    if part == 'points3d':
+        if how == 'inplace':
+            k.points3d[st['row'], st['col']] = st['value']
+        elif how == 'append_row':
+            k.points3d = kapture.Points3d(np.vstack([k.points3d.as_array(), np.array([st['rowvals']], dtype=float)]))
+        elif how == 'drop_row':
+            k.points3d = kapture.Points3d(np.delete(k.points3d.as_array(), st['row'], axis=0))
+        else:
+            raise ValueError(how)
+        return
+    raise ValueError(part)
+
+
+def _queries(k):
+    """read-only calls that may fill private caches of the containers; their results and errors are not judged here"""
+    calls = []
+    t = k.trajectories
+    if t is not None:
+        calls += [t.timestamps_sorted_list, t.timestamp_length, t.key_pairs, lambda: t.sensors_ids, lambda: len(t)]
+        ts = sorted(t.keys())
+        if len(ts) >= 2:
+            sid = next(iter(t[ts[0]]))
+            calls.append(lambda: t.intermediate_pose(ts[0] + 1, sid, 10 ** 9))
+            calls.append(lambda: (ts[0], sid) in t)
+    for p in list(FILE_RECORDS) + list(SIGNAL_RECORDS) + list(ARRAY_RECORDS):
+        r = getattr(k, p)
+        if r is not None:
+            calls += [r.key_pairs, r.data_list, lambda r=r: r.sensors_ids, lambda r=r: len(r)]
+    if k.rigs is not None:
+        calls.append(k.rigs.key_pairs)
+    if k.observations is not None:
+        calls += [k.observations.key_pairs, k.observations.observations_number]
+    if k.points3d is not None:
+        calls += [k.points3d.has_colors, lambda: bool(k.points3d)]
+    calls.append(lambda: k.cameras)
+    calls.append(lambda: repr(k.trajectories) + repr(k.rigs) + repr(k.observations))
+    for c in calls:
+        try:
+            c()
+        except Exception:
+            pass
+
+
+def run_impl(case, ctx):
+    import logging
+    logging.disable(logging.CRITICAL)
+    seed = case.get('seed', 0)
+    a = _side(case['a'], case.get('a_via', 'build'), seed, ctx['tmp'])
+    b = _side(case['b'], case.get('b_via', 'build'), seed + 1, ctx['tmp'])
+    if 'steps' not in case:
+        return _compare(a, b)
+    compares, last = [], 'start'
+    for st in case['steps']:
+        if st['op'] == 'compare':
+            o = _compare(a, b)
+            o['after'] = last
+            compares.append(o)
+        elif st['op'] == 'query':
+            for side in st.get('side', 'ab'):
+                _queries(a if side == 'a' else b)
+        else:
+            last = '%s:%s' % (st['how'], st['part'])
+            for side in st['side']:
+                try:
+                    _apply_mut(a if side == 'a' else b, st)
+                except Exception as e:       # the mutation itself failed: not a comparison outcome; stop the history here
+                    return {'compares': compares, 'mut_exc': f'{last}: {type(e).__name__}: {e}'[:200],
+                            'ab': compares[-1]['ab'] if compares else True, 'ba': compares[-1]['ba'] if compares else True,
+                            'xa': extract(a), 'xb': extract(b)}
+    fin = compares[-1]
+    return {'compares': compares, 'ab': fin['ab'], 'ba': fin['ba'], 'xa': fin['xa'], 'xb': fin['xb']}
+
+
+# ---- what the CURRENT content of the two objects says, decided only when clear-cut (independent of the Coq model)
+def _far(x, y):
+    return abs(x - y) > 1e-3 * (1 + max(abs(x), abs(y)))
+
+
+def _leaf_verdict(v, w):
+    if v == w:
+        return 'same'
+    if v[0] != w[0]:
+        return 'ne'
+    t = v[0]
+    if t == 'leaf':
+        return 'ne'
+    if t == 'feat':
+        if v[1] != w[1] or {json.dumps(m) for m in v[2]} != {json.dumps(m) for m in w[2]}:
+            return 'ne'
+        return 'same'
+    if t == 'set':
+        return 'same' if {json.dumps(m) for m in v[1]} == {json.dumps(m) for m in w[1]} else 'ne'
+    if t == 'bag':
+        return 'same' if sorted(json.dumps(m) for m in v[1]) == sorted(json.dumps(m) for m in w[1]) else 'ne'
+    if t == 'pose':
+        (_, ra, ta), (_, rb, tb) = v, w
+        if (ra is None) != (rb is None) or (ta is None) != (tb is None):
+            return 'ne'
+        if ta is not None and any(_far(x, y) for x, y in zip(ta, tb)):
+            return 'ne'
+        if ra is not None and min(max(abs(x - y) for x, y in zip(ra, rb)), max(abs(x + y) for x, y in zip(ra, rb))) > 1e-3:
+            return 'ne'
+        return 'unknown'
+    if t == 'sensor':
+        (_, na, ta, ma, ca, pa), (_, nb, tb, mb, cb, pb) = v, w
+        if ta != tb or (na and nb and na != nb) or (bool(na) != bool(nb)):
+            return 'ne'
+        if ta in ('camera', 'depth'):
+            if ma != mb or len(ca) != len(cb) or any(_far(x, y) for x, y in zip(ca, cb)):
+                return 'ne'
+            return 'unknown'
+        return 'ne' if pa != pb else 'unknown'
+    return 'unknown'
+
+
+def content_expect(xa, xb):
+    """'eq' / 'ne' when the two contents are clearly the same / clearly different, None when a tolerance decides"""
+    unknown = False
+    for p in _PART_COQ:
+        pa, pb = xa.get(p), xb.get(p)
+        if (pa is None) != (pb is None):
+            return 'ne'
+        if pa is None:
+            continue
+        if pa[0] == 'pts':
+            if pa[1] != pb[1] or len(pa[2]) != len(pb[2]):
+                return 'ne'
+            for ra, rb in zip(pa[2], pb[2]):
+                for x, y in zip(ra, rb):
+                    if x != y:
+                        if _far(x, y):
+                            return 'ne'
+                        unknown = True
+            continue
+        da = {json.dumps(key): val for key, val in pa[1]}
+        db = {json.dumps(key): val for key, val in pb[1]}
+        if set(da) != set(db):
+            return 'ne'
+        for key in da:
+            r = _leaf_verdict(da[key], db[key])
+            if r == 'ne':
+                return 'ne'
+            if r == 'unknown':
+                unknown = True
+    return None if unknown else 'eq'
+
+
+def _judge(o, exp, what):
+    if o.get('exc'):
+        return f'equal_kapture raised on valid datasets [{what}]: ' + o['exc'].split(':')[0]
+    if o['ab'] != o['ba']:
+        return f'not symmetric: equal(a,b)={o["ab"]} but equal(b,a)={o["ba"]} [{what}]'
+    if exp == 'eq' and not o['ab']:
         if what in ('copy', 'reload', 'reorder', 'same-build'):
             return f'answers false for a dataset and its {what}'
         return f'answers false although the datasets have the same content [{what}]'
-    if exp == 'ne' and obs['ab']:
+    if exp == 'ne' and o['ab']:
         return f'answers true although the datasets differ [{what}]'
+    return None
+
+
+def oracle(case, obs):
+    """The property itself on the observed booleans: never raises, symmetric, true on copy / reload / reorder,
+    false when the two sides differ by a mutation beyond tolerance.  Independent of the Coq model.
+    In a history every comparison is judged against the content the two objects hold AT THAT MOMENT."""
+    if 'steps' not in case:
+        return _judge(obs, case.get('expect', 'any'), case.get('tag', '?'))
+    for o in obs['compares']:
+        sig = _judge(o, content_expect(o['xa'], o['xb']) or 'any', 'history, after ' + o['after'])
+        if sig:
+            return sig
+    if obs.get('mut_exc'):
+        return None         # a container refused the mutation: nothing to compare (kept visible in the distribution)
     return None
 
 
@@ -469,28 +807,46 @@ def nontrivial(case, obs):
 
 def classify(case, obs):
     tag = case.get('tag', '?').split(':')
+    if 'steps' in case:
+        pat = ''.join('T' if o['ab'] else 'F' for o in obs['compares']) + ('!' if obs.get('mut_exc') else '')
+        return 'history/%s -> %s' % (tag[1] if len(tag) > 1 else tag[0], pat)
     return '%s/%s -> %s%s' % (tag[0], case.get('expect', 'any'), 'T' if obs['ab'] else 'F', 'T' if obs['ba'] else 'F')
 
 
 def describe(case, obs):
     diff = [p for p in _PART_COQ if obs['xa'].get(p) != obs['xb'].get(p)]
-    return {'tag': case.get('tag'), 'expect': case.get('expect'), 'a_via': case.get('a_via', 'build'),
-            'b_via': case.get('b_via', 'build'), 'parts_that_differ': diff,
-            'differing_part_a': {p: obs['xa'].get(p) for p in diff[:1]},
-            'differing_part_b': {p: obs['xb'].get(p) for p in diff[:1]},
-            'observed': {'equal(a,b)': obs['ab'], 'equal(b,a)': obs['ba'], 'exc': obs.get('exc')}}
+    d = {'tag': case.get('tag'), 'expect': case.get('expect'), 'a_via': case.get('a_via', 'build'),
+         'b_via': case.get('b_via', 'build'), 'parts_that_differ': diff,
+         'differing_part_a': {p: obs['xa'].get(p) for p in diff[:1]},
+         'differing_part_b': {p: obs['xb'].get(p) for p in diff[:1]},
+         'observed': {'equal(a,b)': obs['ab'], 'equal(b,a)': obs['ba'], 'exc': obs.get('exc')}}
+    if 'steps' in case:
+        d['steps'] = case['steps']
+        d['observed'] = [{'after': o['after'], 'equal(a,b)': o['ab'], 'equal(b,a)': o['ba'], 'exc': o.get('exc'),
+                          'content': content_expect(o['xa'], o['xb'])} for o in obs['compares']]
+        d['mutation_refused'] = obs.get('mut_exc')
+    return d
 
 
 def shrink(case):
     """drop a part that is identical on both sides (keeps reference closure irrelevant: only build is needed),
-    then fall back to plain builds"""
+    then fall back to plain builds; for a history also drop steps"""
     if case.get('a_via', 'build') != 'build' or case.get('b_via', 'build') != 'build':
         if case.get('expect') != 'eq':
             c = dict(case)
             c['a_via'] = c['b_via'] = 'build'
             yield c
         return
+    used = {st.get('part') for st in case.get('steps', [])}
+    if 'steps' in case:
+        for i in range(len(case['steps']) - 1):
+            c = dict(case)
+            c['steps'] = case['steps'][:i] + case['steps'][i + 1:]
+            if any(st['op'] == 'compare' for st in c['steps']):
+                yield c
     for p in list(case['a']):
+        if p in used:
+            continue
         if p in case['b'] and case['a'][p] == case['b'][p] and case['a'][p] is not None:
             c = dict(case)
             c['a'] = {q: v for q, v in case['a'].items() if q != p}
@@ -857,6 +1213,135 @@ def mutations(spec, rng):
         s, x = mut(p); x['cols'] = 6; x['rows'] = [r + [0.0, 0.0, 0.0] for r in x['rows']]; yield f'alter-colours-added:{p}', s, 'ne'
 
 
+def _leafspec(part, rng, ts=0):
+    """a fresh leaf description for a two-level dict part"""
+    def f():
+        return rng.choice([rng.uniform(-100, 100), float(rng.randint(-90, 90))])
+    if part in ('rigs', 'trajectories'):
+        return _rpose(rng)
+    if part in FILE_RECORDS:
+        return f'hist/{rng.randint(0, 9999):04d}.bin'
+    if part == 'records_wifi':
+        return [['ab:cd:ef:00:00:01', {'frequency': 2412, 'rssi': f(), 'ssid': 'h', 'scan_time_start': ts, 'scan_time_end': ts + 1}]]
+    if part == 'records_bluetooth':
+        return [['66:77:88:99:aa:bb', {'rssi': f(), 'name': 'h'}]]
+    if part == 'records_gnss':
+        return {'x': f(), 'y': f(), 'z': f(), 'utc': ts, 'dop': 1.5}
+    names = {'records_accelerometer': 'accel', 'records_gyroscope': 'speed', 'records_magnetic': 'strength'}[part]
+    return {f'{c}_{names}': f() for c in 'xyz'}
+
+
+def histories(spec, rng):
+    """yield (tag, steps): the two objects are queried and compared (which fills any cache), one side is then changed
+    through ONE mutation path of the container, they are compared again, and (mostly) the other side receives the
+    same change through the typed API before a last comparison.  Expectations come from the content at each comparison."""
+    Q, C = {'op': 'query', 'side': 'ab'}, {'op': 'compare'}
+
+    def hist(tag, mut, mirror=None, pre=()):
+        side = rng.choice('ab')
+        steps = [Q, C] + [dict(m, op='mut', side=side) for m in pre] + ([C] if pre else []) + [dict(mut, op='mut', side=side), C]
+        if mirror is not None:
+            steps += [dict(mirror, op='mut', side=('b' if side == 'a' else 'a')), C]
+        return 'history:' + tag, steps
+
+    for p in TWO_LEVEL:
+        rows = spec[p]
+        new1 = 'rig_hist' if p == 'rigs' else _fresh_ts(rows) + rng.randint(0, 5)
+        i = rng.randrange(len(rows))
+        k1, (k2, leaf0) = rows[i][0], rows[i][1][0]
+        for how in ADD_HOWS:
+            if how == 'inner':      # a second sensor under an existing outer key
+                tgt1, tgt2 = k1, 'hist_sensor'
+            else:
+                tgt1, tgt2 = new1, 'hist_sensor' if rng.random() < 0.5 else k2
+            val = _leafspec(p, rng, ts=0 if p == 'rigs' else _fresh_ts(rows))
+            m = {'part': p, 'how': how, 'k1': tgt1, 'k2': tgt2, 'val': val}
+            yield hist(f'{how}:{p}', m, mirror=dict(m, how='typed') if rng.random() < 0.7 else None)
+        for how in DEL_HOWS:
+            if p == 'rigs' and how == 'typed_del':
+                continue            # Rigs offers no `del rigs[rig_id, sensor_id]`
+            m = {'part': p, 'how': how, 'k1': k1, 'k2': k2}
+            mirror = None
+            if rng.random() < 0.5 and how != 'popitem':
+                inner = 'inner_pop' if p == 'rigs' else 'typed_del'
+                mirror = {'part': p, 'how': inner if how.startswith('inner') or how == 'typed_del' else 'typed_del_outer',
+                          'k1': k1, 'k2': k2}
+            yield hist(f'{how}:{p}', m, mirror=mirror)
+        # alter an existing leaf (far beyond any tolerance) through three paths
+        for how in ('typed', 'inner', 'update'):
+            val = _leafspec(p, rng, ts=0 if p == 'rigs' else _fresh_ts(rows))
+            yield hist(f'alter-{how}:{p}', {'part': p, 'how': how, 'k1': k1, 'k2': k2, 'val': val})
+        # add then remove again through different paths: back to the same content
+        val = _leafspec(p, rng, ts=0 if p == 'rigs' else _fresh_ts(rows))
+        yield hist(f'setdefault-then-pop:{p}', {'part': p, 'how': 'pop', 'k1': new1},
+                   pre=[{'part': p, 'how': 'setdefault', 'k1': new1, 'k2': 'hist_sensor', 'val': val}])
+    for p in ('rigs', 'trajectories'):
+        full = [(r[0], m[0]) for r in spec[p] for m in r[1] if m[1]['t'] is not None and any(abs(c) > 0.01 for c in m[1]['t'])]
+        if full:
+            k1, k2 = rng.choice(full)
+            yield hist(f'pose_rescale:{p}', {'part': p, 'how': 'pose_rescale', 'k1': k1, 'k2': k2, 'scale': 2.0})
+    for p in SIGNAL_RECORDS:
+        ts, (sid, sigs) = spec[p][0][0], spec[p][0][1][0]
+        fields = copy.deepcopy(sigs[0][1])
+        fields['rssi'] = fields['rssi'] + 1.0
+        yield hist(f'signal_inner-new:{p}', {'part': p, 'how': 'signal_inner', 'k1': ts, 'k2': sid, 'k3': '00:00:00:00:00:99', 'val3': fields})
+        yield hist(f'signal_inner-alter:{p}', {'part': p, 'how': 'signal_inner', 'k1': ts, 'k2': sid, 'k3': sigs[0][0], 'val3': fields})
+        yield hist(f'signal_pop:{p}', {'part': p, 'how': 'signal_pop', 'k1': ts, 'k2': sid, 'k3': sigs[0][0]})
+
+    # ---- feature sets and matches (set subclasses inside a plain dict)
+    for p in list(FEATURES) + ['matches']:
+        t, d = spec[p][rng.randrange(len(spec[p]))]
+        members = d['members'] if p != 'matches' else d
+        fresh = ['hist/new.jpg'] if p != 'matches' else [['hist/a.jpg', 'hist/b.jpg']]
+        for how in SET_ADD_HOWS:
+            m = {'part': p, 'how': how, 'k1': t, 'items': fresh}
+            yield hist(f'{how}-add:{p}', m, mirror=dict(m, how='add') if rng.random() < 0.7 else None)
+        for how in SET_DEL_HOWS:
+            m = {'part': p, 'how': how, 'k1': t, 'items': [members[0]]}
+            yield hist(f'{how}-del:{p}', m, mirror=dict(m, how='discard') if rng.random() < 0.5 else None)
+        yield hist(f'clear:{p}', {'part': p, 'how': 'clear', 'k1': t, 'items': []})
+        nd = copy.deepcopy(d)
+        for how in ('coll_set', 'coll_update'):
+            m = {'part': p, 'how': how, 'k1': 'hist_type', 'val': nd}
+            yield hist(f'{how}:{p}', m, mirror=dict(m, how='coll_set') if rng.random() < 0.5 else None)
+        if len(spec[p]) > 1:
+            yield hist(f'coll_pop:{p}', {'part': p, 'how': 'coll_pop', 'k1': t}, mirror={'part': p, 'how': 'coll_del', 'k1': t})
+
+    # ---- observations
+    p = 'observations'
+    pid, per = spec[p][rng.randrange(len(spec[p]))]
+    kt, lst = per[0]
+    newpid = max(r[0] for r in spec[p]) + 2
+    for how in ('add', 'update', 'ior', 'setdefault'):
+        m = {'part': p, 'how': how, 'k1': newpid, 'k2': kt, 'img': 'hist/o.jpg', 'idx': 7}
+        yield hist(f'{how}:{p}', m, mirror=dict(m, how='add') if rng.random() < 0.7 else None)
+    for how in ('add', 'setdefault', 'inner_append', 'inner_tuple_append', 'list_insert_front'):
+        m = {'part': p, 'how': how, 'k1': pid, 'k2': kt, 'img': 'hist/o.jpg', 'idx': 8}
+        yield hist(f'{how}-existing:{p}', m, mirror=dict(m, how='add') if rng.random() < 0.7 else None)
+    for how in ('pop', 'del', 'inner_del', 'list_pop', 'list_clear', 'list_reverse'):
+        yield hist(f'{how}:{p}', {'part': p, 'how': how, 'k1': pid, 'k2': kt})
+
+    # ---- sensors
+    p = 'sensors'
+    newsensor = {'name': 'h', 'type': 'lidar', 'params': ['x']}
+    for how in ('typed', 'update', 'ior', 'setdefault'):
+        m = {'part': p, 'how': how, 'k1': 'hist_sensor', 'val': newsensor}
+        yield hist(f'{how}:{p}', m, mirror=dict(m, how='typed') if rng.random() < 0.7 else None)
+    sid0 = spec[p][rng.randrange(len(spec[p]))][0]
+    yield hist(f'pop:{p}', {'part': p, 'how': 'pop', 'k1': sid0}, mirror={'part': p, 'how': 'del', 'k1': sid0})
+    yield hist(f'attr_name:{p}', {'part': p, 'how': 'attr_name', 'k1': sid0, 'name': 'renamed in place'})
+    cam = [sid for sid, d in spec[p] if d['type'] == 'camera'][0]
+    yield hist(f'param_inplace:{p}', {'part': p, 'how': 'param_inplace', 'k1': cam, 'index': 1, 'text': '123456.5'})
+
+    # ---- points3d (a numpy array: edited in place, or replaced)
+    p = 'points3d'
+    cols = spec[p]['cols']
+    yield hist(f'inplace:{p}', {'part': p, 'how': 'inplace', 'row': 0, 'col': rng.randrange(cols), 'value': 777.25})
+    m = {'part': p, 'how': 'append_row', 'rowvals': [9.5] * cols}
+    yield hist(f'append_row:{p}', m, mirror=m)
+    yield hist(f'drop_row:{p}', {'part': p, 'how': 'drop_row', 'row': 0})
+
+
 def gen_cases(rng, tier):
     global SHARD_SIZE
     n_bases = 4 if tier == 'quick' else 16
@@ -887,6 +1372,16 @@ def gen_cases(rng, tier):
                 mk(mutated, spec, tag, expect, b_via=other)
             if side in ('b', 'both'):
                 mk(spec, mutated, tag, expect, a_via=other)
+        # comparison histories on the same two live objects (every other base)
+        if bi % 2 == 0:
+            for tag, steps in histories(spec, rng):
+                r = rng.random()
+                vias = ('build', 'build') if r < 0.55 else (('deepcopy', 'build') if r < 0.7 else
+                                                            (('reload', 'deepcopy') if r < 0.85 else ('shuffle', 'reload')))
+                if rng.random() < 0.5:
+                    vias = vias[::-1]
+                cases.append({'a': spec, 'b': spec, 'a_via': vias[0], 'b_via': vias[1], 'seed': seed, 'tag': tag,
+                              'steps': steps})
     return cases
 
 
@@ -900,7 +1395,9 @@ LEVEL_TEXT = ('Theorems in coq/Props/C08.v hold for all datasets satisfying the 
               'observation lists; pose_close / symmetric isclose for poses, camera parameters and 3-D points); hence equal is '
               'reflexive, symmetric, and false in both argument orders after any single add / remove / alter beyond tolerance in any '
               'part on either side. The walk of the model and the parts equal_kapture was observed to visit both cover '
-              'Kapture.__init__ (regenerated table). The pre-repair behaviour is refuted by three computed witnesses.')
+              'Kapture.__init__ (regenerated table). The pre-repair behaviour is refuted by three computed witnesses. The answer depends only '
+              'on the current content of both arguments (C08_equal_depends_on_content_only); the correspondence over comparison '
+              'histories (mutations through typed and inherited methods between comparisons on the same objects) ties the code to it.')
 LEVEL_NOTE = ('Trusted: Coq kernel + vm_compute; the harness builders / extractors / encoders; float64 evaluation of np.isclose, '
               'numpy.linalg.norm and quaternion.rotation_intrinsic_distance (modelled over Q, generator keeps away from the '
               'thresholds); unit quaternions; no NaN. The tolerance relations are not transitive, so "equality" is reflexive and '
